@@ -9,15 +9,18 @@ mkdir -p "$OUT"
 export GOFLAGS= GOPROXY=off
 cd "$WT" || exit 2
 git diff > "$OUT/patch.diff"
-cp zz_demo_test.go "$OUT/zz_demo_test.go" 2>/dev/null
+DEMODIR=.
+[ -f internal/app/api/zz_demo_test.go ] && DEMODIR=internal/app/api
+cp $DEMODIR/zz_demo_test.go "$OUT/zz_demo_test.go" 2>/dev/null
+echo "$DEMODIR" > "$OUT/demo_dir.txt"
 cp SEED_NOTES.md "$OUT/SEED_NOTES.md" 2>/dev/null
 [ -s "$OUT/patch.diff" ] || { echo "no patch"; exit 2; }
 BUILD=$( (go build ./... && cd internal/app && go build ./...) 2>&1 | tail -3)
 EXIST=$(go test -count=1 -skip 'TestSeedDemo' ./... 2>&1 | tail -2 | tr '\n' ' ')
-DEMO_WITH=$(go test -count=1 -run 'TestSeedDemo$' . 2>&1 | tail -1)
+DEMO_WITH=$( (cd $DEMODIR && go test -count=1 -run 'TestSeedDemo$' . 2>&1) | tail -1)
 # (no git stash: the stash is shared between worktrees of one repository)
 git checkout -q -- .
-DEMO_WITHOUT=$(go test -count=1 -run 'TestSeedDemo$' . 2>&1 | tail -1)
+DEMO_WITHOUT=$( (cd $DEMODIR && go test -count=1 -run 'TestSeedDemo$' . 2>&1) | tail -1)
 git apply "$OUT/patch.diff"
 echo "build: [$BUILD] existing: [$EXIST] demo with: [$DEMO_WITH] demo without: [$DEMO_WITHOUT]"
 # run the checks against the repository with the patch applied: /repo itself (SEED_REPO unset,
